@@ -279,7 +279,16 @@ func c14Run(e *core.Env) {
 			delete(stack, v)
 		}
 		dfs(0, map[int]bool{})
-		for errPos := -1; errPos < 3; errPos++ {
+		for errPos := -1; errPos < 6; errPos++ {
+			// errPos 0..2: syntax error in file errPos; 3..5: model-level error (impossible date)
+			errKind := "2020-01-09 opn Assets:X\n"
+			if errPos >= 3 {
+				errKind = "2020-02-30 open Assets:X\n"
+			}
+			errFile := errPos
+			if errPos >= 3 {
+				errFile = errPos - 3
+			}
 			files := map[string]string{}
 			for i := 0; i < 3; i++ {
 				var b strings.Builder
@@ -287,8 +296,8 @@ func c14Run(e *core.Env) {
 					fmt.Fprintf(&b, "include \"%s\"\n", names[j])
 				}
 				fmt.Fprintf(&b, "2020-01-0%d price USD 0.9%d CHF\n", i+1, i)
-				if i == errPos {
-					b.WriteString("2020-01-09 opn Assets:X\n")
+				if i == errFile && errPos >= 0 {
+					b.WriteString(errKind)
 				}
 				files[names[i]] = b.String()
 			}
@@ -297,10 +306,10 @@ func c14Run(e *core.Env) {
 				if cyclic {
 					cs.Class = "include-cycle"
 				} else if cmd[0] != "infer" {
-					cs.WantFail = errPos >= 0 && reach[errPos]
+					cs.WantFail = errPos >= 0 && reach[errFile]
 					cs.WantOK = !cs.WantFail
 				} else {
-					cs.WantFail = errPos >= 0 && reach[errPos]
+					cs.WantFail = errPos >= 0 && reach[errFile] && errPos < 3
 				}
 				try(cs, true)
 			}
